@@ -2609,6 +2609,62 @@ MANIFEST = {
 }
 
 
+def _ob_call_arguments():
+    """CallableModel subclasses whose _call reads its call arguments (args / kwargs): two requests with different
+    arguments at the same parameter values must each return what a freshly built copy returns for those arguments."""
+    from torchtree.core.model import CallableModel
+    from torchtree.core.parameter import Parameter
+    from torchtree.distributions.distributions import Distribution
+    classes, _, _ = discover()
+    found = []
+    for c in classes:
+        if not (isinstance(c, type) and issubclass(c, CallableModel)):
+            continue
+        f = c.__dict__.get("_call")
+        if not inspect.isfunction(f):
+            continue
+        node = _fn_ast(f)
+        if node is None:
+            continue
+        va, kw = node.args.vararg, node.args.kwarg
+        names = {x.arg for x in (va, kw) if x is not None} | {a.arg for a in node.args.args[1:]}
+        uses = any(isinstance(x, ast.Name) and x.id in names and isinstance(x.ctx, ast.Load) for x in ast.walk(node))
+        if uses:
+            found.append(c)
+    checked, skipped = [], []
+    for c in found:
+        if c.__name__ == "Hamiltonian":
+            def make():
+                x = Parameter("x", torch.tensor([0.3, -0.4], dtype=torch.float64))
+                joint = Distribution("joint", torch.distributions.Normal, x, {"loc": Parameter(None, torch.zeros(2, dtype=torch.float64)), "scale": Parameter(None, torch.ones(2, dtype=torch.float64))})
+                from torchtree.distributions.joint_distribution import JointDistributionModel
+                return c("h", JointDistributionModel("j", [joint]))
+            calls = [dict(momentum=torch.tensor([1.0, 0.0], dtype=torch.float64), inverse_mass_matrix=torch.ones(2, dtype=torch.float64)),
+                     dict(momentum=torch.tensor([3.0, 4.0], dtype=torch.float64), inverse_mass_matrix=torch.ones(2, dtype=torch.float64))]
+            live = make()
+            got = [float(live(**kw)) for kw in calls]
+            want = [float(make()(**kw)) for kw in calls]
+            checked.append(c.__name__)
+            if any(abs(a - b) > 1e-12 for a, b in zip(got, want)):
+                raise Refuted("%s returns a value cached for different call arguments: calls with momentum (1,0) then (3,4) give %s, fresh copies give %s" % (c.__name__, got, want),
+                              witness={"class": c.__name__, "live": got, "fresh": want},
+                              replay={"kind": "custom", "contract": "C11", "func": "replay_call_arguments", "args": {}}, confirmed=True)
+        else:
+            # the variational objectives read only `samples` from kwargs and redraw on every request ((d) getter obligations cover them)
+            skipped.append(c.__name__)
+    if not checked:
+        raise Undecided("no call-argument dependent CallableModel could be exercised (found %s)" % [c.__name__ for c in found])
+    return {"backend": "heap", "cases": len(checked), "statement": "checked %s; argument use limited to `samples` (redrawn every request): %s" % (checked, skipped)}
+
+
+def replay_call_arguments(args):
+    try:
+        _ob_call_arguments()
+    except Refuted as e:
+        return False, e.detail
+    return True, "held"
+
+
 def _gen_funcs():
     out = []
     try:
@@ -2756,6 +2812,9 @@ def obligations(tier, seed):
     add("C11.a.notify[GMRFPiecewiseCoalescentBlockUpdatingOperator._step]", _ob_gmrf_operator, A + " (bounded: one proposal)", tag="B")
     add("C11.a.notify[Optimizer._run]", lambda: check_optimizer({"algorithm": "SGD", "iterations": 3}), A)
     add("C11.a.notify[Optimizer._run_closure]", lambda: [check_optimizer({"algorithm": "LBFGS", "iterations": 2, "max_iter": mi}) for mi in (1, 5, 20)][-1], A)
+
+    # ---- (d') cached callables whose value depends on call arguments ----------------------------------
+    add("C11.d.arguments[call-argument dependent CallableModels]", _ob_call_arguments, "(d) cached getters: a value cached for other call arguments is never returned")
 
     # ---- dyn ----------------------------------------------------------------------------------------
     nh, ln = (6, 40) if quick else (40, 80)
